@@ -14,8 +14,9 @@ import (
 // constructor id followed by `n` arbitrary bytes, and
 //   - never panic, never allocate more than the vector preallocation limit allows;
 //   - if the value decodes: encode it, decode those bytes into a fresh value, encode again: both
-//     decodings succeed and both encodings are byte-identical (decode(encode(v)) == v for every v
-//     that arbitrary input can produce; encode is the canonical form).
+//     decodings succeed, the second value equals the first field by field (verifrt.SameValue:
+//     pointers followed, floats by bit pattern, nil and empty slices alike) and both encodings
+//     are byte-identical (decode(encode(v)) == v for every v that arbitrary input can produce).
 func verifC21(registry map[uint32]func() bin.Object, sample, n int) {
 	var ids []uint32
 	if sample > 0 && sample < len(registry) {
@@ -63,6 +64,8 @@ func verifC21(registry map[uint32]func() bin.Object, sample, n int) {
 	if err != nil {
 		return
 	}
+	// the value that comes back is the value that went out, field by field
+	verifrt.Assert(verifrt.SameValue(v, w), "C21.roundtrip.equal")
 	var e2 bin.Buffer
 	err = w.Encode(&e2)
 	verifrt.Assert(err == nil && string(e2.Buf) == string(e1.Buf), "C21.roundtrip.stable")
